@@ -5,38 +5,17 @@
   method, a changed body of `from_slice` / `to_vec` / `read_to_value`, a changed builder macro or guard, a changed routing of context
   constants, a field dropped from `Header::is_empty`: each is *found but different*, and breaks the kernel-checked equality below —
   the theorems about the model then no longer speak about this source, whether or not any test input notices.
+
+  Each fact lives in its own module under `CosetProofs/Ties/`; a property file imports only the facts it rests on, so a textual
+  change to one inventory breaks the obligations of the properties that own it and no others.  This file only gathers them.
 -/
-import CosetGen.Iana
-import CosetGen.Facts
-import CosetGen.Inventory
-import CosetRef.PinnedFacts
-namespace Coset.Ties
-
-/-- F8: the syntactic panic sites (unwrap / expect / panic! / assert! / unreachable! / remove / index / len-subtraction …) per function. -/
-theorem panic_sites : Gen.panicSites = Pinned.panicSites := by rfl
-/-- F8: the integer conversion sites (`try_into`, `try_from`, `as iN/uN`, `Value::from` / `.into()`) per function. -/
-theorem narrowing_sites : Gen.narrowingSites = Pinned.narrowingSites := by rfl
-/-- F9: every `impl (Tagged)CborSerializable` is empty apart from `TAG`; the provided method bodies and `read_to_value` are unchanged. -/
-theorem serializable_impls : Gen.serializableImpls = Pinned.serializableImpls := by rfl
-theorem default_bodies : Gen.defaultBodies = Pinned.defaultBodies := by rfl
-/-- F10: which builder macro generates which method, the macro bodies, the hand-written builder methods (guards included). -/
-theorem builder_uses : Gen.builderUses = Pinned.builderUses := by rfl
-theorem builder_macros : Gen.builderMacros = Pinned.builderMacros := by rfl
-theorem builder_methods : Gen.builderMethods = Pinned.builderMethods := by rfl
-/-- F3: which context constant each helper hands to which structure function; the recipient-context guard sets. -/
-theorem context_routing : Gen.contextRouting = Pinned.contextRouting := by rfl
-theorem recipient_guards : Gen.recipientGuards = Pinned.recipientGuards := by rfl
-/-- F7: the fields of `struct Header` and the tests `Header::is_empty` makes (all eight, one each). -/
-theorem header_fields : Gen.headerFields = Pinned.headerFields := by rfl
-theorem header_is_empty_tests : Gen.headerIsEmptyTests = Pinned.headerIsEmptyTests := by rfl
-/-- F6: which field each positional `remove(i)` feeds, and the order in which `to_cbor_value` emits the fields. -/
-def genRemoveFields := [Gen.CoseSignature_removeFields, Gen.CoseSign_removeFields, Gen.CoseSign1_removeFields, Gen.CoseMac_removeFields, Gen.CoseMac0_removeFields, Gen.CoseRecipient_removeFields, Gen.CoseEncrypt_removeFields, Gen.CoseEncrypt0_removeFields, Gen.PartyInfo_removeFields, Gen.SuppPubInfo_removeFields, Gen.CoseKdfContext_removeFields]
-def pinnedRemoveFields := [Pinned.CoseSignature_removeFields, Pinned.CoseSign_removeFields, Pinned.CoseSign1_removeFields, Pinned.CoseMac_removeFields, Pinned.CoseMac0_removeFields, Pinned.CoseRecipient_removeFields, Pinned.CoseEncrypt_removeFields, Pinned.CoseEncrypt0_removeFields, Pinned.PartyInfo_removeFields, Pinned.SuppPubInfo_removeFields, Pinned.CoseKdfContext_removeFields]
-theorem remove_fields : genRemoveFields = pinnedRemoveFields := by rfl
-def genEmitOrders := [Gen.CoseSignature_emitOrder, Gen.CoseSign_emitOrder, Gen.CoseSign1_emitOrder, Gen.CoseMac_emitOrder, Gen.CoseMac0_emitOrder, Gen.CoseRecipient_emitOrder, Gen.CoseEncrypt_emitOrder, Gen.CoseEncrypt0_emitOrder, Gen.PartyInfo_emitOrder, Gen.SuppPubInfo_emitOrder, Gen.CoseKdfContext_emitOrder]
-def pinnedEmitOrders := [Pinned.CoseSignature_emitOrder, Pinned.CoseSign_emitOrder, Pinned.CoseSign1_emitOrder, Pinned.CoseMac_emitOrder, Pinned.CoseMac0_emitOrder, Pinned.CoseRecipient_emitOrder, Pinned.CoseEncrypt_emitOrder, Pinned.CoseEncrypt0_emitOrder, Pinned.PartyInfo_emitOrder, Pinned.SuppPubInfo_emitOrder, Pinned.CoseKdfContext_emitOrder]
-theorem emit_order : genEmitOrders = pinnedEmitOrders := by rfl
-/-- F1: the `iana_registry!` macro itself (the tables are checked row by row in C17). -/
-theorem iana_macro : Gen.ianaMacroHash = Pinned.ianaMacroHash := by rfl
-
-end Coset.Ties
+import CosetProofs.Ties.PanicSites
+import CosetProofs.Ties.NarrowingSites
+import CosetProofs.Ties.Serializable
+import CosetProofs.Ties.Builders
+import CosetProofs.Ties.ContextRouting
+import CosetProofs.Ties.RecipientGuards
+import CosetProofs.Ties.HeaderFields
+import CosetProofs.Ties.RemoveFields
+import CosetProofs.Ties.EmitOrder
+import CosetProofs.Ties.IanaMacro
